@@ -6,6 +6,7 @@
   from `Pool.hit` in emission order (Purr/Model/Walk.lean, `wkStep`), so these are the numbers written.
 -/
 import Purr.Lemmas.PoolL
+import Purr.Lemmas.PoolWalkL
 namespace Purr.C13
 open Purr
 
@@ -129,5 +130,12 @@ theorem hit_ok_of_le_99 (p : Pool) (ab : Nat × Nat) (h : (p.hitNat ab).1 ≤ 99
 example : results .init [(0, 1), (1, 0), (2, 3), (4, 5)] = [1, 1, 1, 2] := by decide
 example : Within99 .init [(0, 1), (1, 0), (2, 3), (4, 5)] := by
   simp only [Within99]; decide
+
+/-- NEVER OUT OF NUMBERS EARLY, for a whole traversal: `walk` gives up for lack of a ring number only when at least
+    99 ring closures are open in what it has already handed to the follower (`openAfter`: a ring-closure event
+    opens its number if it is not open and closes it otherwise).  Together with C06 `walk_only_panics_on_rnum`
+    and C11: on a well-formed adjacency list writing succeeds unless 99 closures are open at once. -/
+theorem walk_never_out_early (g : Graph) (evs : List Event) (h : walk g = (evs, .panic "join_pool.rs:rnum")) :
+    99 ≤ (openAfter [] evs).length := walk_pool_exhausted_late g evs h
 
 end Purr.C13
